@@ -32,6 +32,11 @@ impl Byte {
     ) -> io::Result<Cow<'de, [u8]>> {
         match self {
             Self::External { block_content_id } => {
+                // Taking nothing does not need the block, which a writer omits when it is empty.
+                if len == 0 {
+                    return Ok(Cow::default());
+                }
+
                 let src = external_data_readers
                     .get_mut(block_content_id)
                     .ok_or_else(|| {
